@@ -4,7 +4,7 @@
 
 #![warn(missing_docs)]
 
-use chrono::prelude::{DateTime, Utc};
+use chrono::prelude::{DateTime, Datelike, Utc};
 use msi::{Package, Select};
 use safer_ffi::prelude::*;
 use std::{io, path::Path};
@@ -103,8 +103,7 @@ fn get_information(path: char_p::Ref<'_>) -> MsiInformation {
                 creation_time: {
                     if let Some(time) = package.summary_info().creation_time()
                     {
-                        let datetime: DateTime<Utc> = time.into();
-                        datetime.to_rfc2822().into()
+                        format_rfc2822(time).into()
                     } else {
                         "".into()
                     }
@@ -155,6 +154,37 @@ fn get_information(path: char_p::Ref<'_>) -> MsiInformation {
     }
 }
 
+/// Formats a creation time in RFC 2822 format, or returns an empty string if
+/// the time cannot be represented that way (a malformed file can carry any
+/// 64-bit timestamp, e.g. one beyond the year 9999; panicking here would abort
+/// the calling process).
+fn format_rfc2822(time: std::time::SystemTime) -> String {
+    let (secs, nanos) = match time.duration_since(std::time::UNIX_EPOCH) {
+        Ok(duration) => (
+            i64::try_from(duration.as_secs()).ok(),
+            duration.subsec_nanos(),
+        ),
+        Err(error) => {
+            let duration = error.duration();
+            let secs = i64::try_from(duration.as_secs()).ok();
+            if duration.subsec_nanos() == 0 {
+                (secs.map(|secs| -secs), 0)
+            } else {
+                (
+                    secs.map(|secs| -secs - 1),
+                    1_000_000_000 - duration.subsec_nanos(),
+                )
+            }
+        }
+    };
+    match secs.and_then(|secs| DateTime::<Utc>::from_timestamp(secs, nanos)) {
+        Some(datetime) if (0..=9999).contains(&datetime.year()) => {
+            datetime.to_rfc2822()
+        }
+        _ => String::new(),
+    }
+}
+
 /// Frees the memory of the given MsiInformation.
 #[ffi_export]
 fn free_information(info: MsiInformation) {
@@ -182,10 +212,15 @@ fn get_table(
                     result.push(columns.into());
 
                     // then, we add the rows
-                    package
+                    let rows = match package
                         .select_rows(Select::table(table_name.to_str()))
-                        .expect("select")
-                        .for_each(|row| {
+                    {
+                        Ok(rows) => rows,
+                        // A malformed table cannot be read; a panic here
+                        // would abort the calling process.
+                        Err(_) => return repr_c::Vec::EMPTY,
+                    };
+                    rows.for_each(|row| {
                             let mut row_data: Vec<repr_c::String> =
                                 Vec::with_capacity(row.len());
                             for index in 0..row.len() {
